@@ -94,4 +94,100 @@ theorem d14_witness :
     WF f ∧ render f = "\"Date_\"dd/mm/yyyy".toList ∧ classify f = .dateTime ∧
     detectD14 (render f) = .ok .other ∧ detect (render f) = .ok .dateTime := by decide +kernel
 
+/-! ## the scanner against the number-format grammar -/
+
+/-- **scanner_grammar** (holds after fix D14): for every well-formed format of the number-format grammar the
+    scanner returns the class the grammar assigns — DateTime / TimeDelta when the first section's first date or
+    elapsed token is a date token / an elapsed-time unit, Other when it has none; it never panics on such a text -/
+theorem scanner_grammar (f : Fmt) (h : WF f) : detect (render f) = .ok (classify f) :=
+  scan_wf_section f.first h (renderRest f.rest) (stops_renderRest f.rest)
+
+/-- everything after the first `;` is ignored — even text that is no list of sections at all -/
+theorem later_sections_ignored (sec : List Tok) (h : wfSection sec = true) (tail : List Char) :
+    detect (renderSection sec ++ ';' :: tail) = detect (renderSection sec) := by
+  have h1 := scan_wf_section sec h (';' :: tail) (Or.inr ⟨tail, rfl⟩)
+  have h2 := scan_wf_section sec h [] (Or.inl rfl)
+  rw [List.append_nil] at h2
+  exact h1.trans h2.symm
+
+/-- quoted text is ignored: deleting `"s"` (for any `s` without a quote — date letters, `_`, `\`, `;`, brackets
+    included) from in front of ANY remaining text does not change the result -/
+theorem quoted_ignored (s : List Char) (hs : '"' ∉ s) (post : List Char) :
+    detect ('"' :: (s ++ '"' :: post)) = detect post := by
+  have hw : wfTok (.lit s) = true := by simpa [wfTok] using hs
+  have := scan_neutral_tok St.init quiet_init rfl (.lit s) hw rfl post
+  simpa [renderTok, detect] using this
+
+/-- an escaped character (`\c`) or a padding character (`_c`) is ignored, whatever `c` is -/
+theorem escaped_ignored (c : Char) (post : List Char) :
+    detect ('\\' :: c :: post) = detect post ∧ detect ('_' :: c :: post) = detect post :=
+  ⟨scan_neutral_tok St.init quiet_init rfl (.esc c) rfl rfl post,
+   scan_neutral_tok St.init quiet_init rfl (.pad c) rfl rfl post⟩
+
+/-- a bracketed prefix (colour, condition, locale / currency, DBNum …) that is not an elapsed-time unit is ignored -/
+theorem bracketed_ignored (body : List Char) (hb : ∀ c ∈ body, isStructural c = false)
+    (hne : isElapsedBody body = false) (post : List Char) :
+    detect ('[' :: (body ++ ']' :: post)) = detect post := by
+  have hw : wfTok (.brk body) = true := by
+    simp only [wfTok, Bool.and_eq_true, List.all_eq_true, Bool.not_eq_true']
+    exact ⟨hb, hne⟩
+  have := scan_neutral_tok St.init quiet_init rfl (.brk body) hw rfl post
+  simpa [renderTok, detect] using this
+
+/-- any run of well-formed neutral tokens (literals, escapes, padding, fill, bracketed prefixes, placeholders) in
+    front of ANY text is ignored -/
+theorem neutral_tokens_ignored (ts : List Tok) (hw : ∀ t ∈ ts, wfTok t = true) (hn : ∀ t ∈ ts, isNeutralTok t = true)
+    (post : List Char) : detect (renderSection ts ++ post) = detect post := by
+  induction ts with
+  | nil => rfl
+  | cons t ts ih =>
+    rw [renderSection, List.append_assoc]
+    have := scan_neutral_tok St.init quiet_init rfl t (hw t (by simp)) (hn t (by simp)) (renderSection ts ++ post)
+    exact this.trans (ih (fun t ht => hw t (by simp [ht])) (fun t ht => hn t (by simp [ht])))
+
+/-- `[h]`, `[mm]`, `[SS]` … after neutral tokens is an elapsed-time format whatever follows; a date token after
+    neutral tokens makes a date format whatever follows -/
+theorem first_date_token_decides (ts : List Tok) (hw : ∀ t ∈ ts, wfTok t = true) (hn : ∀ t ∈ ts, isNeutralTok t = true)
+    (post : List Char) :
+    (∀ b, isElapsedBody b = true → detect (renderSection ts ++ renderTok (.elapsed b) ++ post) = .ok .timeDelta) ∧
+    (∀ s, (isDateRun s || isAmPm s) = true → detect (renderSection ts ++ renderTok (.dateTok s) ++ post) = .ok .dateTime) := by
+  refine ⟨fun b hb => ?_, fun s hs => ?_⟩
+  · rw [List.append_assoc, neutral_tokens_ignored ts hw hn]
+    have := scan_plain_section [.elapsed b] (by simpa [wfTok] using hb) (by simp [isGeneral]) St.init quiet_init rfl post
+    simpa [renderSection, detect, classifySection] using this
+  · rw [List.append_assoc, neutral_tokens_ignored ts hw hn]
+    have := scan_plain_section [.dateTok s] (by simpa [wfTok] using hs) (by simp [isGeneral]) St.init quiet_init rfl post
+    simpa [renderSection, detect, classifySection] using this
+
+/-- the scanner does not panic on any text with at most 255 `[` characters.
+    `_partial`: the full statement "never panics" is false of the code as it is — the `u8` counter `brackets += 1`
+    overflows on the 256th unclosed `[` (ledger D30-b, a C06 matter; `bracket_overflow_witness` below) -/
+theorem scanner_no_panic_partial (s : List Char) (h : s.count '[' ≤ 255) (msg : String) : detect s ≠ .panic msg :=
+  scan_no_panic St.init s (by simpa [St.init] using h) msg
+
+/-- D30-b is modelled faithfully: 256 opening brackets make the model panic like the code does -/
+theorem bracket_overflow_witness :
+    (detect (List.replicate 256 '[')).tag = "panic" ∧ (detect (List.replicate 255 '[')).tag = "ok" := by
+  decide +kernel
+
+/-! ## non-vacuity: the hypotheses above are met by non-trivial formats -/
+
+/-- `[Red][$-409]"Due _"\ dd/mm/yyyy\ hh:mm AM/PM;"late;"[h]:mm` — colour, locale, a quoted literal containing an
+    underscore, escapes, several date tokens, a second section with a quoted `;` and an elapsed unit -/
+example :
+    let f : Fmt := { first := [.brk "Red".toList, .brk "$-409".toList, .lit "Due _".toList, .esc ' ',
+                               .dateTok "dd".toList, .num '/', .dateTok "mm".toList, .num '/', .dateTok "yyyy".toList,
+                               .esc ' ', .dateTok "hh".toList, .num ':', .dateTok "mm".toList, .num ' ',
+                               .dateTok "AM/PM".toList],
+                     rest := [[.lit "late;".toList, .elapsed "h".toList, .num ':', .dateTok "mm".toList]] }
+    WF f ∧ classify f = .dateTime ∧
+    render f = "[Red][$-409]\"Due _\"\\ dd/mm/yyyy\\ hh:mm AM/PM;\"late;\"[h]:mm".toList := by decide +kernel
+
+example : WF { first := [.brk "Blue".toList, .general "GENERAL".toList, .lit " d".toList, .pad ')'], rest := [] } := by
+  decide +kernel
+
+example : WF { first := [.fill '-', .brk "hm".toList, .brk [], .elapsed "SS".toList, .num '.', .num '0'], rest := [[]] } ∧
+    classify { first := [.fill '-', .brk "hm".toList, .brk [], .elapsed "SS".toList, .num '.', .num '0'], rest := [[]] }
+      = .timeDelta := by decide +kernel
+
 end Formats
